@@ -764,7 +764,7 @@ class LibsModel:
         ty = it.ty
         if ty == 'ndarray':
             ax = it.axes[1:] if it.axes else None
-            out = it.only('geo', 'idx', 'mono', 'prov', 'store', 'dtype', 'taint').w(ty='ndarray', axes=ax, view_of=it.store, deps=it.deps)
+            out = it.only('geo', 'idx', 'mono', 'prov', 'store', 'dtype', 'taint', 'origin').w(ty='ndarray', axes=ax, view_of=it.store, deps=it.deps)
             if it.colvals is not None and it.axes is not None and len(it.axes) == 2:
                 out = out.w(ty='tuple', elts=list(it.colvals), rowof=True)
             if ax == ():
@@ -872,6 +872,16 @@ class LibsModel:
                 if (empty_when_true and not branch) or (nonempty_when_true and branch):
                     st.env[name] = v.w(maybe_empty=None, nonempty=True)
             return
+        # x[-1] == len(a) - 1 : the wrap-around pseudo index of a circular shifted comparison is last / is absent
+        if isinstance(left, ast.Subscript) and isinstance(left.value, ast.Name) and isinstance(op, (ast.Eq, ast.NotEq)):
+            arrv = st.env.get(left.value.id)
+            iv = interp.value_of(left.slice)
+            if arrv is not None and arrv.rollwrap and iv is not None and has_const(iv) and cval(iv) == -1 and rv is not None and rv.bin is not None:
+                o, bl, br, _, _ = rv.bin
+                if o == '-' and has_const(br) and cval(br) == 1 and (bl.lenof is not None or bl.shape_of is not None or bl.sizeof is not None):
+                    is_last = (isinstance(op, ast.Eq)) == branch
+                    st.env[left.value.id] = arrv.w(rollwrap='last' if is_last else None)
+                    return
         # row['col'] != -1 / != NOSITE : the field is a real site on the true edge
         if isinstance(left, ast.Subscript) and isinstance(left.value, ast.Name) and lv is not None and rv is not None:
             row = st.env.get(left.value.id)
